@@ -863,7 +863,28 @@ def r03_18(chk):
     chk.floor("R03.18", 1, "make_gap_filter")
 
 
+def r03_19(chk):
+    chk.rule("R03.19", "only gaps at the ends are termini: in IndelMap.spans a gap record is shown as TerminalPadding ('?') only under a test of WHERE the gap is (its position equals 0 or parent_length) -- not because it is the last record: with termini_unknown the last record of 'AC--GTAA' is an internal gap, and showing it as '?' alters internal characters (Alignment.with_modified_termini() gave AC??GTAA, the array class AC--GTAA)")
+    from .c09 import _enclosing_tests
+
+    m = chk.repo.module("core/location.py")
+    q = "IndelMap.spans"
+    fn = m.func(q)
+    picks = [e for e in walk_no_nested(fn) if isinstance(e, ast.IfExp) and isinstance(e.body, ast.Name) and e.body.id == "TerminalPadding"]
+    if not picks:
+        raise AnalysisError(f"{q}: TerminalPadding selection not found")
+    n = 0
+    for e in picks:
+        n += 1
+        stmt = next(st for st in walk_no_nested(fn) if isinstance(st, ast.stmt) and any(x is e for x in ast.walk(st)) and not isinstance(st, (ast.For, ast.If, ast.While, ast.FunctionDef)))
+        conds = [norm(e.test)] + [t for t in _enclosing_tests(fn, stmt) if not t.startswith("not (")]
+        positional = any(("parent_length" in c_) or ("== 0" in c_ and "pos" in c_) for c_ in conds)
+        chk.decide(positional, "R03.19", key(m, q, f"TerminalPadding chosen by position ({norm(e.test)[:40]})"), m.loc(e), f"conditions {conds}", f"TerminalPadding is chosen under {conds}: none of them says where the gap lies, so the last gap record is shown as '?' even when it is internal")
+    chk.floor("R03.19", 2, "leading and trailing terminus")
+
+
 def run(chk):
+    r03_19(chk)
     r03_18(chk)
     r03_17(chk)
     r03_16(chk)
